@@ -10,6 +10,8 @@ LOG=$(mktemp)
 if command -v cargo-nextest >/dev/null && [ -f /w/lib/nextest.toml ]; then
   cargo nextest run --workspace --no-fail-fast --tool-config-file pb:/w/lib/nextest.toml --profile pb --test-threads 8 --offline >"$LOG" 2>&1
 fi
+# insta leaves *.snap.new next to the snapshots of the tests that fail on the pinned tree too: never leave them behind
+find tests -name "*.snap.new" -delete 2>/dev/null
 J=target/nextest/pb/junit.xml
 if [ ! -f "$J" ]; then echo "no junit output"; tail -40 "$LOG"; rm -f "$LOG"; exit 2; fi
 rm -f "$LOG"
